@@ -725,7 +725,10 @@ class PiecewiseConstantCoalescentGridModel(AbstractCoalescentModel):
 
         if 'grid' not in data:
             cutoff: float = data['cutoff']
-            grid = Parameter(None, torch.linspace(0, cutoff, theta.shape[-1])[1:])
+            grid = Parameter(
+                None,
+                torch.linspace(0, cutoff, theta.shape[-1], dtype=theta.dtype)[1:],
+            )
         else:
             if isinstance(data['grid'], list):
                 grid = Parameter(None, torch.tensor(data['grid'], dtype=theta.dtype))
@@ -918,7 +921,10 @@ class PiecewiseExponentialCoalescentGridModel(AbstractCoalescentModel):
 
         if 'grid' not in data:
             cutoff: float = data['cutoff']
-            grid = Parameter(None, torch.linspace(0, cutoff, theta.shape[-1])[1:])
+            grid = Parameter(
+                None,
+                torch.linspace(0, cutoff, theta.shape[-1], dtype=theta.dtype)[1:],
+            )
         else:
             if isinstance(data['grid'], list):
                 grid = Parameter(None, torch.tensor(data['grid'], dtype=theta.dtype))
@@ -1113,7 +1119,10 @@ class PiecewiseLinearCoalescentGridModel(AbstractCoalescentModel):
 
         if 'grid' not in data:
             cutoff: float = data['cutoff']
-            grid = Parameter(None, torch.linspace(0, cutoff, theta.shape[-1])[1:])
+            grid = Parameter(
+                None,
+                torch.linspace(0, cutoff, theta.shape[-1], dtype=theta.dtype)[1:],
+            )
         else:
             if isinstance(data['grid'], list):
                 grid = Parameter(None, torch.tensor(data['grid'], dtype=theta.dtype))
